@@ -66,7 +66,7 @@ var LeafKinds = []string{
 
 var WrapKinds = []string{
 	"wrap", "wrapf", "withmsg", "withmsgf", "stack", "hint", "detail", "safedetails",
-	"telemetry", "domain", "issuelink", "tags", "assertion", "mark", "secondary", "combine",
+	"telemetry", "domain", "issuelink", "tags", "assertion", "mark", "secondary", "combine", "wrapferr",
 	"handled", "handledmsg", "handleddomain", "handleddomainmsg", "domhandled", "handleassert", "assertwrap",
 	"newfw", "newfwsuffix", "httpcode", "grpccode",
 	"goerrorf", "goerrorfsuffix", "ospath", "oslink", "ossyscall", "netop", "dnswrap",
@@ -250,6 +250,10 @@ func (g *Cfg) WrapOf(t *rapid.T, k string, c *Spec) *Spec {
 			s.I = append(s.I, rapid.SampledFrom([]int{0, 0, 0, 1}).Draw(t, "valueless"))
 		}
 	case "mark", "secondary", "combine":
+		s.X = []*Spec{nil}
+	case "wrapferr":
+		// Wrapf with an error-typed argument (captured as secondary error).
+		s.S = []string{str(t, "lit")}
 		s.X = []*Spec{nil}
 	case "httpcode":
 		s.I = []int{rapid.IntRange(100, 599).Draw(t, "code")}
